@@ -33,7 +33,7 @@ func (r *Rng) Intn(n int) int {
 	}
 	return int(r.U64() % uint64(n))
 }
-func (r *Rng) Bool() bool     { return r.U64()&1 == 1 }
+func (r *Rng) Bool() bool        { return r.U64()&1 == 1 }
 func (r *Rng) Chance(p int) bool { return r.Intn(100) < p }
 func (r *Rng) Bytes(n int) []byte {
 	b := make([]byte, n)
@@ -47,9 +47,9 @@ func (r *Rng) Pick(xs ...int) int { return xs[r.Intn(len(xs))] }
 // ---------- output protocol ----------
 
 var (
-	outMu sync.Mutex
-	out   = bufio.NewWriterSize(os.Stdout, 1<<20)
-	stats = map[string]int{}
+	outMu    sync.Mutex
+	out      = bufio.NewWriterSize(os.Stdout, 1<<20)
+	stats    = map[string]int{}
 	nSamples = 0
 )
 
@@ -77,7 +77,7 @@ func Known(id, what string) {
 	fmt.Fprintf(out, "K\t%s\t%s\n", id, what)
 }
 
-func Stat(key string) { outMu.Lock(); stats[key]++; outMu.Unlock() }
+func Stat(key string)         { outMu.Lock(); stats[key]++; outMu.Unlock() }
 func StatN(key string, n int) { outMu.Lock(); stats[key] += n; outMu.Unlock() }
 
 func Sample(v interface{}) {
